@@ -36,6 +36,32 @@ def gen_ops(rng, n, length):
     return ";".join(ops)
 
 
+def long_vcd(rng, path, nsteps):
+    sigs = [("!", "wire", 1), ('"', "wire", 8), ("#", "real", 64), ("$x", "string", 1), ("%", "wire", 1), ("&", "wire", 5)]
+    hdr = "$timescale 1ns $end\n$scope module top $end\n" + "".join(
+        f"$var {kw} {w} {i} s{n} $end\n" for n, (i, kw, w) in enumerate(sigs)) + "$upscope $end\n$enddefinitions $end\n"
+    cur = {"!": "0!", '"': "b00000000 \"", "#": "r0.5 #", "$x": "sinit $x", "%": "x%", "&": "b0z1x0 &"}
+    out = [hdr, "#0\n"] + [v + "\n" for v in cur.values()]
+    en_period = rng.choice([20_000, 30_011])
+    for t in range(1, nsteps):
+        out.append(f"#{t}\n")
+        cur["!"] = f"{t & 1}!"
+        out.append(cur["!"] + "\n")
+        if t % en_period == 0:
+            cur["%"] = f"{(t // en_period) & 1}%"
+            out.append(cur["%"] + "\n")
+        if t % 9973 == 0:
+            cur['"'] = f"b{t % 256:08b} \""
+            cur["#"] = f"r{t / 8} #"
+            cur["$x"] = f"st{t} $x"
+            cur["&"] = "b" + "".join(rng.choice("01xz") for _ in range(5)) + " &"
+            out += [cur[k] + "\n" for k in ('"', "#", "$x", "&")]
+        if any(abs(t - b) <= 2 for b in (65_535, 131_070)) or t % 21_845 == 0:
+            out += [cur[k] + "\n" for k in ('"', "#", "$x", "%", "&")]       # redundant re-dump of unchanged values
+    open(path, "w").write("".join(out))
+    return path
+
+
 def requests(ctx):
     rng = ctx.rng
     quick = ctx.tier == "quick"
@@ -59,6 +85,10 @@ def requests(ctx):
         p = os.path.join(gen_dir, f"g{k}.vcd")
         open(p, "wb").write(hdr + body)
         files.append(p)
+    # long recordings: more than 65 535 time steps = several storage blocks per signal; around every roll-over all current
+    # values are dumped again (redundant first entries of a block, like a $dumpall checkpoint), reals / strings included
+    for k in range(1 if quick else 4):
+        files.append(long_vcd(rng, os.path.join(gen_dir, f"long{k}.vcd"), 66_000 if quick else rng.choice([70_000, 132_000])))
     # generated GHW (alias-rich: sliced signals) and FST files (alias handles, several blocks) from abstract designs
     from . import ghwgen
     for k in range(5 if quick else 30):
